@@ -153,6 +153,14 @@ func genCase(rt *rapid.T) Case {
 		call = append(call, r.Print(g.Expr(proggen.TInt, nil, 3)))
 	}
 	c.Main = "(list (" + strings.Join(call, " ") + ") " + r.Print(g.Expr(proggen.TInt, nil, 2)) + ")"
+	if rapid.IntRange(0, 4).Draw(rt, "self-redefinition") == 0 {
+		// a function that is redefined by a function it calls, while its own call is still running: the running call
+		// finishes the body it started with, the next call runs the new body
+		c.Defs = append(c.Defs,
+			"(defun zf8 () (defun zf7 (x) (vt:mark 9001 x) (* x 3)))",
+			"(defun zf7 (x) (zf8) (vt:mark 9002 x) (* x 2))")
+		c.Main = c.Main[:len(c.Main)-1] + " (zf7 3) (zf7 4))"
+	}
 	c.K = rapid.IntRange(1, 5).Draw(rt, "k")
 	if rapid.IntRange(0, 2).Draw(rt, "redef") == 0 {
 		j := rapid.IntRange(0, nfun-1).Draw(rt, "redefwhich")
